@@ -275,6 +275,58 @@ def zero_means_end(ctx, P):
     ctx.floor(P + ':S09-6:floor', 'non-terminal state arms of Read impls that size their result from a stage buffer', n, 5)
 
 
+def partial_buffer_verdicts(ctx, P):
+    """armor::reader::read_from_buf hands a parser whatever the source's fill_buf returned and asks for more only on
+    nom::Err::Incomplete.  A grammar that wraps line parsers in nom::combinator::complete (turning `need more input` into a hard
+    error so that many0 can stop at the first non-matching line) therefore has to restore the Incomplete verdict itself for a last line
+    that is not terminated yet; otherwise any source whose first buffer ends inside the armor headers makes dearmoring fail."""
+    import callgraph
+    drivers = []
+    for p, r in sorted(ctx.f.bodies.items()):
+        if '::tests::' in p:
+            continue
+        b = ctx.wrap(r)
+        for i, t in b.calls(r'armor::reader::read_from_buf$'):
+            a = t['args'][3] if len(t['args']) > 3 else None
+            if a is not None and a.get('fn') in ctx.f.bodies:
+                drivers.append((p, a['fn']))
+    ctx.floor(P + ':S09-7:floor', 'parsers handed to read_from_buf', len(drivers), 3)
+    def callees(fn, seen):
+        if fn in seen or fn not in ctx.f.bodies:
+            return
+        seen.add(fn)
+        b = ctx.wrap(ctx.f.bodies[fn])
+        for i, t in b.calls():
+            for cand in (t['f'].get('res'), t['f'].get('fn')):
+                if cand in ctx.f.bodies and cand.startswith('armor::reader::'):
+                    callees(cand, seen)
+            for a in t['args']:
+                if isinstance(a, dict) and a.get('fn') in ctx.f.bodies:
+                    callees(a['fn'], seen)
+        for cr in ctx.f.closures_of(fn):
+            callees(cr['path'], seen)
+    for parser in sorted(set(x for _, x in drivers)):
+        seen = set()
+        callees(parser, seen)
+        def hard_complete(q):
+            # `opt(complete(x))` at the end of a grammar only says "x may be absent" (absence and shortage are both fine): not counted
+            qb = ctx.wrap(ctx.f.bodies[q])
+            cs = [i for i, t in qb.calls(r'nom::combinator::complete$')]
+            opt = set()
+            for i, t in qb.calls(r'nom::combinator::opt$'):
+                for x in qb.operand_origins(t['args'][0]):
+                    m = re.match(r'cs:nom::combinator::complete#(\d+)$', x)
+                    if m:
+                        opt.add(int(m.group(1)))
+            return [i for i in cs if i not in opt]
+        uses_complete = sorted(q for q in seen if hard_complete(q))
+        restores = sorted(q for q in seen if ctx.wrap(ctx.f.bodies[q]).constructs(r'nom::(internal::)?Err$', 'Incomplete'))
+        ctx.check('%s:S09-7:partial-buffer-verdict:%s' % (P, parser), 'R-sib',
+                  '%s (driven by read_from_buf on partial buffers) never reports a hard error merely because its input ends inside a line: it uses no `complete` wrapper, or restores Incomplete for an unterminated line' % parser.split('::')[-1],
+                  (not uses_complete) or bool(restores), function=parser, table=dict(complete_in=uses_complete, incomplete_restored_in=restores),
+                  missing=None if ((not uses_complete) or restores) else '`complete` in %s turns a partially available header line into a parse error: a BufRead whose first buffer is shorter than the armor headers cannot be dearmored' % uses_complete)
+
+
 def interrupted_safe_fill(ctx, P):
     """The library drives its own generators with std::io::copy (MessageBuilder::to_writer, encrypt_write, SignatureConfig hashing),
     and io::copy retries a read that failed with ErrorKind::Interrupted.  util::fill_buffer accumulates several source reads into a
